@@ -42,6 +42,12 @@ PROPS = {
                 GEN + "the model's full snapshot (heights, timestamps, validity, necessity, ordered parent lists with child indices, children, "
                 "handler counts, heap buckets in order, counters) is compared with verif_snapshot() after EVERY action, and verif_audit() "
                 "(index arrays position by position, heap markers, handler counts) must be silent; non-trivial = distinct history in which node functions ran"),
+    "C19": spec(["IncrVerif.Props.C19"], [("limits", 1.0)], ["api", "read", "heap", "stats"],
+                "profile limits: limit N in 1..12, map chains of top height N-1..N+1 (fan-in 1-2), binds over chains, growing and shrinking "
+                "reconfigurations at quiescent points (also below the greatest height used), and the misuse stream: cycles closed through one "
+                "or two binds, stabilise called from a node function and from a handler; every history ends by dropping every handle and the state; "
+                "both build profiles; non-trivial = distinct history in which node functions ran or a panic was produced",
+                builds=("debug", "release"), require_wf=False, nq=200),
     "C09": dict(
         modules=["IncrVerif.Props.C09"],
         profiles=[("subs", 0.5), ("general", 0.3), ("bind", 0.2)],
